@@ -266,7 +266,7 @@ def forbidden_scan():
   return hits
 
 
-EXTRA_PROPS = {'C02': ['Lexer'], 'C03': ['Lexer']}
+EXTRA_PROPS = {'C02': ['Lexer'], 'C03': ['Lexer'], 'C06': ['AtomRoundTrip', 'PPrint']}
 
 
 def proof_step(pid, thorough=False):
